@@ -62,8 +62,16 @@ THEOREMS = {
     "extract": [_P + "extract_eq", _P + "step_refines"], "replace": [_P + "replace_eq", _P + "step_refines"],
     "riter": [_P + "riter_eq", _P + "step_refines"],
     "new": [_P + "construct_eq", _P + "construct_inv", _P + "inv_history"],
-    "mset": [_P + "multiset_sorted_perm", _P + "multiset_eq_spec"],
+    "mset": [_P + "multiset_sorted_perm", _P + "multiset_eq_spec", _P + "multiset_eq_stable",
+             _P + "multiset_eq_stable_contract", _P + "multiset_eq_stable_inplace_vector", _P + "multiset_spec_stable"],
+    "erase_if": [_P + "setEraseIf_eq", _P + "step_refines", _P + "run_refines"],
+    "cmp": [_P + "setEq_eq", _P + "setLt_eq", _P + "relOps_eq", _P + "step_refines"],
+    "sizes": [_P + "sizes_eq", _P + "sizes_consistent", _P + "step_refines"],
 }
+# flat_set over etl::inplace_vector (kind=fv) and the container contract
+THEOREMS["new"] += [_P + "fv_construct_eq", _P + "contract_is_static_vector", _P + "static_vector_models_agree"]
+THEOREMS["clear"] += [_P + "fv_clear_eq"]
+THEOREMS["extract"] += [_P + "fv_extract_eq"]
 SEARCH_CAP = 400000
 
 KINDS = ["ss", "fs", "fi"]
@@ -138,8 +146,11 @@ def init_for(ctor, cmp, s, variant):
     return o[::2] + o[1::2]
 
 
-def lookup_lines(cmp, keys, het_ok=True):
-    out = []
+ERASE_IFS = [(2, 0), (2, 1), (3, 0), (3, 2), (1, 0), (7, 6)]      # v % m == r: evens, odds, thirds, all, (almost) none
+
+
+def lookup_lines(cmp, keys, het_ok=True, riter=True):
+    out = ["sizes", "cmp"]
     for op in LOOKUPS:
         for k in keys:
             out.append("%s k=%d" % (op, k))
@@ -149,8 +160,9 @@ def lookup_lines(cmp, keys, het_ok=True):
                 out.append("%s k=%d het=1" % (op, k))
                 if op in ("find", "lower_bound", "upper_bound", "equal_range"):
                     out.append("%s k=%d het=1 cst=1" % (op, k))
-    out.append("riter")
-    out.append("riter cst=1")
+    if riter:
+        out.append("riter")
+        out.append("riter cst=1")
     return out
 
 
@@ -173,7 +185,9 @@ def modifiers(kind, cap, cmp, s, universe):
     for f in range(n + 1):
         for la in range(f, n + 1):
             out.append((["erase_range first=%d last=%d" % (f, la)], "erase_range"))
-    out.append((["clear", "insert k=%d" % universe[0]], "clear"))
+    for m, r in ERASE_IFS:
+        out.append((["erase_if m=%d r=%d" % (m, r), "sizes", "cmp"], "erase_if"))
+    out.append((["clear", "sizes", "insert k=%d" % universe[0]], "clear"))
     for via in ("member", "free"):
         out.append((["swap via=%s" % via, "riter", "swap via=%s" % via], "swap"))
     if kind != "ss":
@@ -218,11 +232,42 @@ def generate(tier, seed):
                 # (c) every sequence of d insert/erase_key operations from every reachable set
                 depth = 3 if thorough else 2
                 V = U[:5] if thorough else U
-                ops = ["insert k=%d" % k for k in V] + ["erase_key k=%d" % k for k in V]
+                ops = ["insert k=%d" % k for k in V] + ["erase_key k=%d" % k for k in V] + ["erase_if m=2 r=1"]
                 if kind == "ss" or cmp in ("less", "tgreater") or thorough:
                     for s in subsets(V, cap):
                         for seq in itertools.product(ops, repeat=depth):
                             add([new_line(kind, cap, cmp, "range", order(cmp, s)[::-1])] + list(seq), "seq%d/%s" % (depth, cfg))
+    # (c') the six relational operators on EVERY pair of reachable sets over 4 keys (both orders occur as separate pairs)
+    for kind in KINDS + ["fv"]:
+        for cap in CAPS:
+            for cmp in CMPS:
+                for a in subsets(U[:4], cap):
+                    for b in subsets(U[:4], cap):
+                        if kind == "fv":
+                            add([new_line(kind, cap, cmp, "su", order(cmp, a), order(cmp, b)), "cmp"], "cmp/%s/%d/%s" % (kind, cap, cmp))
+                        else:
+                            add([new_line(kind, cap, cmp, "range", a[::-1], b), "cmp", "swap", "cmp"], "cmp/%s/%d/%s" % (kind, cap, cmp))
+    # (c'') flat_set over etl::inplace_vector (kind=fv): only the sorted_unique container constructor, the lookups, clear,
+    #       extract, the size observers and the relational operators compile; each from every reachable set
+    for cap in CAPS:
+        for cmp in CMPS + ["hless"]:
+            cfg = "fv/%d/%s" % (cap, cmp)
+            if cmp == "hless":
+                reach = []
+                for n in range(cap + 1):
+                    for classes in itertools.combinations(range(4), n):
+                        for bits in itertools.product((0, 1), repeat=n):
+                            reach.append([2 * c + b for c, b in zip(classes, bits)])
+                keys = list(range(8)) + [9]
+            else:
+                reach = list(subsets(U, cap))
+                keys = U + [7]
+            for i, s in enumerate(reach):
+                oth = reach[(7 * i + 3) % len(reach)]
+                head = new_line("fv", cap, cmp, "su", order(cmp, s), order(cmp, oth))
+                add([head] + lookup_lines(cmp, keys, riter=False), "lookup/" + cfg)
+                add([head, "extract", "sizes", "cmp", "find k=%d" % keys[1]], "extract/" + cfg)
+                add([head, "clear", "sizes", "cmp", "count k=%d" % keys[1]], "clear/" + cfg)
     # (d) a comparator that is only a strict weak order (`hless` orders by k // 2: equivalent keys need not be equal)
     U8 = list(range(8))
     for kind in ("ss", "fs"):
@@ -261,14 +306,16 @@ def generate(tier, seed):
     for n in range(6):
         for t in itertools.product([0, 1, 2, 3], repeat=n):
             add(["mset kind=fs cmp=hless c=%s" % fmt_list(t)], "mset/hless")
+            if n <= 4 or thorough:
+                add(["mset kind=fv cmp=hless c=%s" % fmt_list(t)], "mset/hless")
     for cmp in CMPS:
-        for kind in ("fs", "fi"):
+        for kind in ("fs", "fi", "fv"):
             for n in range((6 if thorough else 5) + 1):
                 for t in itertools.product([0, 1, 2], repeat=n):
                     add(["mset kind=%s cmp=%s c=%s" % (kind, cmp, fmt_list(t))], "mset/" + cmp)
     for _ in range(20000 if thorough else 2000):
         c = [rnd.randrange(6) for _ in range(rnd.randint(0, 8))]
-        add(["mset kind=%s cmp=%s c=%s" % (rnd.choice(("fs", "fi")), rnd.choice(CMPS), fmt_list(c))], "mset/rand")
+        add(["mset kind=%s cmp=%s c=%s" % (rnd.choice(("fs", "fi", "fv")), rnd.choice(CMPS), fmt_list(c))], "mset/rand")
     # random histories over all members
     branch = {"full": 0, "dup": 0, "new": 0, "erase_absent_with_successor": 0, "erase_present": 0}
     for _ in range(60000 if thorough else 6000):
@@ -317,11 +364,18 @@ def generate(tier, seed):
             elif r < 0.68 and kind != "ss":
                 lines.append("extract")
                 sim.cur = []
-            elif r < 0.71 and kind != "ss":
+            elif r < 0.70 and kind != "ss":
                 c = order(cmp, rnd.sample(universe, rnd.randint(0, cap)))
                 lines.append("replace c=%s" % fmt_list(c))
                 sim.cur = list(c)
-            elif r < 0.75:
+            elif r < 0.73:
+                m = rnd.randint(1, 4)
+                rr = rnd.randrange(m)
+                lines.append("erase_if m=%d r=%d" % (m, rr))
+                sim.cur = [x for x in sim.cur if x % m != rr]
+            elif r < 0.76:
+                lines.append(rnd.choice(("cmp", "sizes")))
+            elif r < 0.80:
                 ks = [rnd.choice(universe) for _ in range(rnd.randint(0, 5))]
                 lines.append("insert_range ks=%s" % fmt_list(ks))
                 for x in ks:
